@@ -195,6 +195,12 @@ def _shard_worker(binary, subcmd, cases_path, lo, hi, out_path, timeout, extra_a
     pos = lo
     with open(out_path, "w") as out:
         while pos < hi:
+            # enough hangs / aborts have been seen to decide the run: the remaining cases are not executed (each would cost a
+            # watchdog period); they are recorded as "notrun" and get no verdict
+            if stats["hang"] + stats["abort"] >= HANG_BUDGET:
+                out.write(json.dumps({"case": pos, "outcome": "notrun"}) + "\n")
+                pos += 1
+                continue
             p = subprocess.Popen([binary, subcmd, cases_path, str(pos), str(hi)] + list(extra_args),
                                  stdout=subprocess.PIPE, stderr=subprocess.DEVNULL, env=env)
             fd = p.stdout.fileno()
@@ -230,6 +236,9 @@ def _shard_worker(binary, subcmd, cases_path, lo, hi, out_path, timeout, extra_a
             if not dead:
                 p.stdout.close()
                 p.wait()
+
+
+HANG_BUDGET = int(os.environ.get("VERIF_HANG_BUDGET", "48"))
 
 
 def run_workers(subcmd, cases_path, n_cases, out_path, shards=None, timeout=10, extra_args=(), env=None):
@@ -303,22 +312,27 @@ def validate(pid, module, obs_path, cfg=None, chunk=20000, parallel=None, env=No
     if n == 0:
         return [], 0, 0
     wd = workdir(pid)
-    chunks = []
+    chunks = []          # (path, original line numbers of the cases in it)
     with open(obs_path) as f:
         k = 0
-        buf = []
-        for line in f:
+        buf, idx = [], []
+        for ln, line in enumerate(f):
+            if line.startswith('{"case": ') and '"outcome": "notrun"' in line[:60]:
+                continue          # not executed (hang budget exhausted): no verdict
             buf.append(line)
+            idx.append(ln)
             if len(buf) >= chunk:
                 cp = os.path.join(wd, "v_%s_%d.ndjson" % (module, k))
                 open(cp, "w").writelines(buf)
-                chunks.append((cp, k * chunk, len(buf)))
+                chunks.append((cp, idx, len(buf)))
                 k += 1
-                buf = []
+                buf, idx = [], []
         if buf:
             cp = os.path.join(wd, "v_%s_%d.ndjson" % (module, k))
             open(cp, "w").writelines(buf)
-            chunks.append((cp, k * chunk, len(buf)))
+            chunks.append((cp, idx, len(buf)))
+    if not chunks:
+        return [], 0, 0
     parallel = parallel or max(1, min(len(chunks), NCPU // workers, 12))
     fails, states = [], [0]
     global LAST_STATS
@@ -344,7 +358,7 @@ def validate(pid, module, obs_path, cfg=None, chunk=20000, parallel=None, env=No
                     states[0] += r.distinct
                     LAST_STATS.extend(n for n in r.notes if isinstance(n, dict))
                     for fl in r.fails:
-                        fl["line"] = base + fl.get("c", 1) - 1
+                        fl["line"] = base[fl.get("c", 1) - 1]
                         fails.append(fl)
             except ToolError as ex:
                 with lockv:
